@@ -1,7 +1,7 @@
 (* Store/Props_C07.v — pinned statements for C07 (the store wrappers behave as a conforming object
    store with real compare-and-swap).  Operation step lists come from coq/gen/Gen_Flush.v. *)
 From Coq Require Import List String NArith ZArith Bool Arith.
-From Verif Require Import Common.ObjStore Common.CommitPoint Store.Model Store.Crash Store.Cas Store.GetOpts gen.Gen_Flush.
+From Verif Require Import Common.ObjStore Common.CommitPoint Store.Model Store.Crash Store.Cas Store.GetOpts Store.Cache gen.Gen_Flush.
 Import ListNotations.
 Open Scope list_scope.
 Open Scope string_scope.
@@ -25,7 +25,8 @@ Theorem C07_generated_facts :
   get_precondition_order = ["if_match"; "if_unmodified_since"; "if_none_match"; "if_modified_since"] /\
   etag_condition_clears_date = true /\ date_comparisons_as_modelled = true /\
   validate_ranges_order = ["start>=len"; "end<=start"; "end>len"] /\
-  etag_seeded_by_commit_id = true.
+  etag_seeded_by_commit_id = true /\
+  listing_inserts_cache = false /\ loads_in_key_section = true.
 Proof. repeat split; try reflexivity. repeat constructor. Qed.
 Print Assumptions C07_generated_facts.
 
@@ -95,6 +96,43 @@ Example C07_aba_rejected :
   snd (enc_run [] h) = snd (refrun (fun _ => None) h) /\
   abs (fst (meta_run [] h)) "k" = Some ((6, 1)%N, 18%N).
 Proof. cbv zeta. split; [vm_compute; reflexivity|]. split; vm_compute; reflexivity. Qed.
+
+(* (6) concurrent callers of one key, cold or warm cache: for EVERY interleaving of the steps of any number of
+   committing callers (put / copy / multipart / delete), loading callers (get / head / get_ranges via
+   get_meta, refresh_meta), listings and evictions — with the cache discipline extracted from the source
+   (listings do not insert, loads run inside the per-key section) — the cached document is never older than
+   the last acknowledged commit and never newer than the commit point, and whenever no caller is inside the
+   key's section it IS the commit point: reads, heads and listings answered from it report the latest
+   acknowledged commit's size, token and timestamp.  (moka's section is modelled as a mutex.) *)
+Theorem C07_cache_never_stale_after_ack :
+  forall (d : nat) (acts : list cact) (s : cst),
+    crun (code_cfg listing_inserts_cache loads_in_key_section) (mkC d None d (S d) None []) acts = Some s ->
+    (acked s <= doc s)%nat /\
+    (forall c, cache s = Some c -> (acked s <= c <= doc s)%nat) /\
+    (sect s = None -> forall c, cache s = Some c -> c = doc s).
+Proof.
+  intros d acts s R. change (code_cfg listing_inserts_cache loads_in_key_section) with good_cfg in R.
+  destruct (cinv_run acts _ _ (cinv_init d) R) as (A & B & C & D).
+  split; [exact A|]. split; [exact C|]. intros E. rewrite E in D. exact D.
+Qed.
+Print Assumptions C07_cache_never_stale_after_ack.
+
+(* a listing that inserts the document it fetched outside the section breaks it: fetched before a commit,
+   inserted after the commit returned, the cache holds a document older than the acknowledged commit *)
+Theorem C07_listing_cache_insert_refuted :
+  exists acts s, crun (mkCC true true) (mkC 0 None 0 1 None []) acts = Some s /\
+                 sect s = None /\ cache s = Some 0%nat /\ acked s = 1%nat /\ doc s = 1%nat.
+Proof.
+  exists [CListFetch; CWAcquire; CWPut; CWRelease false; CListFinish 0]. eexists.
+  split; [vm_compute; reflexivity|]. repeat split.
+Qed.
+Print Assumptions C07_listing_cache_insert_refuted.
+
+Example C07_cache_nonvacuous :
+  exists s, crun (code_cfg listing_inserts_cache loads_in_key_section) (mkC 0 None 0 1 None [])
+                 [CListFetch; CLAcquire; CLLoad; CLRelease true; CWAcquire; CWPut; CWRelease false; CListFinish 0;
+                  CEvict; CLAcquire; CLLoad; CLRelease false] = Some s /\ cache s = Some 1%nat /\ acked s = 1%nat.
+Proof. eexists. split; [vm_compute; reflexivity|]. split; reflexivity. Qed.
 
 (* (4) read preconditions: the wrapper answers exactly what the reference GetOptions::check_preconditions
    answers for the logical (e_tag, last_modified), consumes every condition it answered, and keeps the
